@@ -1,6 +1,7 @@
 package sim
 
 import (
+	"time"
 	"encoding/json"
 	"fmt"
 	"os"
@@ -74,6 +75,25 @@ func TestWorker(t *testing.T) {
 		for _, v := range r.Notes {
 			fmt.Printf("NOTE %s: %s\n", v.Key(), v.Detail)
 		}
+	case "minimise":
+		// development aid: shrink the first violation of a seeded run and
+		// re-execute the minimised tape several times
+		seed, _ := strconv.ParseUint(os.Getenv("VERIF_SEED"), 10, 64)
+		spec := RunSpec{Prop: os.Getenv("VERIF_PROP"), Fam: os.Getenv("VERIF_FAM"), Seed: seed}
+		r := ExecRun(t, spec)
+		if len(r.Viol) == 0 {
+			fmt.Println("no violation")
+			return
+		}
+		key := r.Viol[0].Key()
+		min := Minimise(t, spec, r.Tape, key, time.Now().Add(20*time.Second))
+		fmt.Printf("violation %s tape %d -> %d\n", key, len(r.Tape), len(min))
+		for i := 0; i < 6; i++ {
+			s := spec
+			s.Replay, s.Tape, s.Verbose = true, min, i%2 == 1
+			rr := ExecRun(t, s)
+			fmt.Printf("rerun %d verbose=%v: hash=%016x steps=%d reproduced=%v\n", i, s.Verbose, rr.Hash, rr.Steps, hasViolation(&rr, key))
+		}
 	case "hashes":
 		// determinism self-test: print the hash of a range of seeds
 		n, _ := strconv.Atoi(os.Getenv("VERIF_N"))
@@ -93,6 +113,14 @@ func TestWorker(t *testing.T) {
 			fam := fams[i%len(fams)]
 			r := ExecRun(t, RunSpec{Prop: prop, Fam: fam.Name, Seed: mix64(base, uint64(i))})
 			fmt.Printf("%s %s %d %016x %d %d", prop, fam.Name, i, r.Hash, r.Steps, len(r.Viol))
+			if os.Getenv("VERIF_REPLAYCHECK") != "" {
+				// replay fidelity: the recorded tape reproduces the run
+				rs := RunSpec{Prop: prop, Fam: fam.Name, Seed: mix64(base, uint64(i)), Replay: true, Tape: r.Tape}
+				rr := ExecRun(t, rs)
+				if rr.Hash != r.Hash {
+					fmt.Printf(" REPLAY-MISMATCH %016x", rr.Hash)
+				}
+			}
 			if os.Getenv("VERIF_SHOWVIOL") != "" {
 				for _, v := range r.Viol {
 					fmt.Printf(" [%s seed=%d: %s]", v.Key(), mix64(base, uint64(i)), v.Detail)
